@@ -173,11 +173,22 @@ impl Array {
             }
         });
 
+        // the blocks have one fewer dimension than the image, so a unit dimension is added for every image to be
+        // rolled separately
+        let blocks_dimensions: Vec<usize> = unrolled
+            .dimensions
+            .iter()
+            .copied()
+            .take(dimension_count - 2)
+            .chain(vec![1, unrolled_count, unrolled_size * image_depth])
+            .collect();
+        let blocks = Array::from((blocks_dimensions, Rc::clone(&unrolled.values)));
+
         let result = Array::sliced_op(
-            vec![unrolled],
+            vec![&blocks],
             &op,
             None,
-            &unrolled.dimensions,
+            &blocks.dimensions,
             &output_dimensions,
             3,
             0,
@@ -210,13 +221,17 @@ impl Array {
 
         let values_length = self.values.len();
         // the stride between two convolution outputs
-        let stride = values_length / filter_count;
+        let stride = row_stride_count * col_stride_count;
+        // the length of the convolution outputs of a single image
+        let image_length = stride * filter_count;
         let mut result = vec![0.0; values_length];
         let mut result_index = 0;
-        for k in 0..filter_count {
-            for i in 0..stride {
-                result[result_index] = self.values[k + filter_count * i];
-                result_index += 1;
+        for image_offset in (0..values_length).step_by(image_length) {
+            for k in 0..filter_count {
+                for i in 0..stride {
+                    result[result_index] = self.values[image_offset + k + filter_count * i];
+                    result_index += 1;
+                }
             }
         }
 
@@ -236,10 +251,12 @@ impl Array {
             let backward_op: BackwardOp = Rc::new(move |c, _, x| {
                 let mut result = vec![0.0; values_length];
                 let mut delta_index = 0;
-                for k in 0..filter_count {
-                    for i in 0..stride {
-                        result[k + filter_count * i] = x.values[delta_index];
-                        delta_index += 1;
+                for image_offset in (0..values_length).step_by(image_length) {
+                    for k in 0..filter_count {
+                        for i in 0..stride {
+                            result[image_offset + k + filter_count * i] = x.values[delta_index];
+                            delta_index += 1;
+                        }
                     }
                 }
 
